@@ -78,8 +78,7 @@ def item_lists(C, tier):
 
 def run(tier):
     C = Check('C04', tier)
-    C.prove('Properties/C04.v')
-    C.cov['tie']['eo_writer.py, eo_reader.py'] = 'correspondence-only (hand-written models Model/Writer.v, Model/Reader.v)'
+    C.prove('Properties/C04.v', units=['G_eo_numeric_limits', 'G_number_encoding_utils', 'G_string_encoding_utils', 'G_eo_reader', 'G_eo_writer'], bridges={'Bridge/B_reader.v': ['G_eo_numeric_limits', 'G_number_encoding_utils', 'G_string_encoding_utils', 'G_eo_reader'], 'Bridge/B_writer.v': ['G_eo_numeric_limits', 'G_number_encoding_utils', 'G_string_encoding_utils', 'G_eo_writer']})
     check_cp1252(C)
     wmod, rmod = load_leaf(C.scratch.src, 'eolib.data.eo_writer', 'eolib.data.eo_reader')
     lists, nb = item_lists(C, tier)
